@@ -13,6 +13,7 @@ use std::rc::Rc;
 // panic capture
 
 thread_local! {
+    static FAULT_FLAG: RefCell<bool> = RefCell::new(false);
     static LAST_PANIC: RefCell<Option<String>> = RefCell::new(None);
     static WANT_BACKTRACE: RefCell<bool> = RefCell::new(false);
     static LAST_BACKTRACE: RefCell<Option<String>> = RefCell::new(None);
@@ -39,6 +40,11 @@ pub fn install_quiet_panic_hook() {
             LAST_BACKTRACE.with(|b| *b.borrow_mut() = Some(format!("{}", bt)));
         }
     }));
+}
+
+/// true when a fault (Unknown) was handed out on this thread since the last call
+pub fn take_fault_flag() -> bool {
+    FAULT_FLAG.with(|f| std::mem::replace(&mut *f.borrow_mut(), false))
 }
 
 pub fn set_want_backtrace(b: bool) {
@@ -258,6 +264,7 @@ impl SatSolver for ChoiceSat {
         };
         if fault {
             ctl.calls.push(rec);
+            FAULT_FLAG.with(|f| *f.borrow_mut() = true);
             return SolvingResult::Unknown;
         }
         if n_models == 0 {
